@@ -4,7 +4,8 @@ import OVM.IO.Driver
 /-
   C07, OVMB half.  Subject: `decode` / `decodeStream` (lean/OVM/IO/Ovmb/Decode.lean), the model of `ovmb_read`
   with exactly the range checks the C++ has; unchecked kernel accesses (`vector::operator[]` in the topology
-  checks of `add_face` / `add_cell` and in the tet / hex overrides, incl. their distinct-vertex guard `spanCount`)
+  checks of `add_face` / `add_cell` and in the tet / hex overrides, incl. their guards `spanCount`, `noParallel`,
+  `oppPairsDisjoint`)
   are the ghost error `.ub`.  The model is tied
   to the code by the differential run of tools/props/io_ovmb.py (same bytes to both, result class and mesh
   compared, the model compiled from these very files).
@@ -75,8 +76,9 @@ theorem add_face_in_range_safe (cfg : Cfg) (edges : List (Nat × Nat)) (hes : Li
   addFace_ok cfg h
 
 /-- `add_cell` (any mesh type) with halffaces below `2 * n_faces`, in a mesh whose stored faces only hold halfedges
-    below `2 * n_edges` (part of `RInv`), makes no out-of-range access — including the distinct-vertex guard of the
-    tet / hex overrides (`spanCount`) — and the list it stores (possibly re-ordered by the hexahedral kernel) is
+    below `2 * n_edges` (part of `RInv`), makes no out-of-range access — including the guards of the tet / hex
+    overrides (`spanCount`, `noParallel`, and `oppPairsDisjoint` on the list about to be stored, which for a
+    re-ordered list is in range only because of `HexOK`) — and the list it stores (possibly re-ordered by the hexahedral kernel) is
     again below `2 * n_faces` -/
 theorem add_cell_in_range_safe (cfg : Cfg) (hx : HexOK cfg) (edges : List (Nat × Nat)) (faces : List (List Nat))
     (hfs : List Nat) (hfa : ∀ f ∈ faces, ∀ x ∈ f, x < 2 * edges.length) (h : ∀ x ∈ hfs, x < 2 * faces.length) :
